@@ -601,6 +601,16 @@ def _trim_start_matches(s, p):
     return s
 
 
+def m_starts_with(ex, args, callee):
+    s, pat = dv(args[0]), dv(args[1])
+    if isinstance(s, str) and isinstance(pat, str): return s.startswith(pat)
+    if isinstance(s, SB) and isinstance(pat, str):
+        pb = pat.encode()
+        if len(pb) > len(s.bs): return False
+        return zand(*[(b == c_) for b, c_ in zip(s.bs, pb)])
+    raise Unsupported(f'{callee}: string content is not concrete')
+
+
 def m_ends_with_char(ex, args, callee):
     s, ch = dv(args[0]), dv(args[1])
     if isinstance(s, str) and isinstance(ch, str): return s.endswith(ch)
@@ -826,11 +836,13 @@ BASE_MODELS = [
     (r'Option::<.*>::as_deref_mut$|Option::<.*>::as_deref$', m_as_deref),
     (r'Option::<&.*>::cloned$|Option::<&.*>::copied$', lambda ex, a, c: ex.some(dv(ex.payload(a[0]))) if a[0].discr == 1 else a[0]),
     (r'Result::<.*>::map::', m_res_map), (r'Result::<.*>::map_err::', m_map_err), (r'Result::<.*>::and_then::', m_res_and_then),
+    (r'Result::<.*>::or_else::', lambda ex, a, c: dv(a[0]) if dv(a[0]).discr == 0 else ex.call_closure(a[1], [ex.payload(dv(a[0]))])),
+    (r'Result::<.*>::unwrap_or_default$', lambda ex, a, c: ex.payload(dv(a[0])) if dv(a[0]).discr == 0 else default_for_type(ex, re.search(r'Result::<(.*), [^,]*>::unwrap_or_default$', c).group(1))),
     (r'Result::<.*>::ok$', m_res_ok), (r'Result::<.*>::is_ok$', lambda ex, a, c: dv(a[0]).discr == 0),
     (r'Result::<.*>::is_err$', lambda ex, a, c: dv(a[0]).discr == 1),
     (r'Result::<.*>::err$', lambda ex, a, c: ex.some(ex.payload(dv(a[0]))) if dv(a[0]).discr == 1 else ex.none()),
     (r' as Try>::branch$', m_try_branch), (r' as FromResidual<.*>>::from_residual$', m_from_residual),
-    (r'str>::starts_with::<(char|&str)>$', need_str(lambda s, c: s.startswith(c))), (r'str>::ends_with::<char>$', lambda ex, a, c: m_ends_with_char(ex, a, c)),
+    (r'str>::starts_with::<(char|&str)>$', lambda ex, a, c: m_starts_with(ex, a, c)), (r'str>::ends_with::<char>$', lambda ex, a, c: m_ends_with_char(ex, a, c)),
     (r'str>::find::<char>$', m_find_char), (r'str>::to_uppercase$', need_str(lambda s: s.upper())),
     (r'str>::eq_ignore_ascii_case$', lambda ex, a, c: m_eq_ignore_ascii_case_concrete(ex, a, c)),
     (r'^(std::string::)?String::new$', lambda ex, a, c: ''),
